@@ -278,12 +278,40 @@ func (x *Exec) callStatic(fr *Frame, st *State, in ssa.Instruction, fn *ssa.Func
 // havocPointees: a callee without model may write through the pointers it is given: the objects its pointer arguments point
 // to directly get unknown contents (objects reachable only through further pointers are not touched: stated abstraction).
 func (x *Exec) havocPointees(st *State, args []*Val, callee string) {
+	// decoders (GetParamSet, Unmarshal...) fill their destination with objects they allocate: the references stored directly in
+	// the destination are new (stated library assumption; what hangs below them stays unknown)
+	decoder := false
+	for _, n := range []string{".GetParamSet", ".Unmarshal", ".MustUnmarshal", ".UnmarshalJSON", ".MustUnmarshalJSON", ".UnmarshalInterface"} {
+		if strings.HasSuffix(callee, n) {
+			decoder = true
+		}
+	}
+	var lo *Term
+	if decoder {
+		lo = st.NextRef
+		nr := Const(freshName("ref:next"), SInt)
+		st.Assume(Ge(nr, lo))
+		st.NextRef = nr
+	}
+	decoded := func(nv *Val) {
+		if !decoder || nv == nil || nv.Typ == nil {
+			return
+		}
+		ls := nv.leaves()
+		for i, l := range flatten(nv.Typ) {
+			if l.Ref && i < len(ls) && ls[i] != nil {
+				st.Assume(Or(Eq(ls[i], Num(0)), Ge(ls[i], lo)))
+			}
+		}
+		x.note("destination of decoder " + callee + ": references stored in it are taken to be newly allocated")
+	}
 	for _, a := range args {
 		if a != nil && a.K == VIface && a.Tag != nil && a.Tag.K == TNum {
 			// a pointer passed as an interface value (e.g. a ParamSet): the object behind it
 			if T := typeIDTypes[int(a.Tag.Num.Int64())]; T != nil && classify(T) == VPtr {
 				if et := ptrElem(T); et != nil && classify(et) == VStruct {
 					nv := x.freshLike(st, &Val{Typ: et}, "out")
+					decoded(nv)
 					if err := st.storeObj(et, a.T, "", nv); err == nil {
 						x.note("out-parameter of unmodelled call " + callee + ": pointee set to an unknown value")
 					}
@@ -298,11 +326,13 @@ func (x *Exec) havocPointees(st *State, args []*Val, callee string) {
 		case PCell:
 			if t, ok := st.CellTypes[a.Ptr.Cell]; ok {
 				st.Cells[a.Ptr.Cell] = x.freshLike(st, &Val{Typ: t}, "out")
+				decoded(st.Cells[a.Ptr.Cell])
 				x.note("out-parameter of unmodelled call " + callee + ": pointee set to an unknown value")
 			}
 		case PObj:
 			if a.Ptr.Root != nil && classify(a.Ptr.Root) == VStruct {
 				nv := x.freshLike(st, &Val{Typ: a.Ptr.Root}, "out")
+				decoded(nv)
 				if err := st.storeObj(a.Ptr.Root, a.T, "", nv); err == nil {
 					x.note("out-parameter of unmodelled call " + callee + ": pointee set to an unknown value")
 				}
@@ -402,6 +432,7 @@ func (x *Exec) callContract(fr *Frame, st *State, in ssa.Instruction, fc *FuncCo
 		x.emit("decreases", label, st, And(Ge(x.topDecr0, Num(0)), Lt(d, x.topDecr0)), "recursive call")
 	}
 	old := st.Clone()
+	x.checkCalleeModifies(fr, st, in, env, fc)
 	x.havocModifies(st, env, fc)
 	// the callee may have allocated
 	nr := Const(freshName("ref:next"), SInt)
@@ -485,8 +516,21 @@ func (x *Exec) havocLoc(st *State, env *SpecEnv, m SExpr) {
 	case SCall:
 		if id, ok := n.Fun.(SIdent); ok && id.Name == "elems" {
 			s := env.eval(n.Args[0])
+			if s.K == VMap {
+				// a map parameter: its key set and values
+				if hk, has, ok := x.mapArrays(st, s.Typ); ok {
+					ks, _ := x.mapKeySort(s.Typ)
+					st.setHeap(hk, Store(has, s.T, Const(freshName("maphas"), SArr(ks, SBool))))
+					_, et := mapTypes(s.Typ)
+					for _, l := range flatten(et) {
+						key, arr := x.mapValArr(st, s.Typ, l)
+						st.setHeap(key, Store(arr, s.T, Const(freshName("mapval"), SArr(ks, l.Sort))))
+					}
+				}
+				return
+			}
 			if s.K != VSlice {
-				sfail("modifies elems(x): x must be a slice")
+				sfail("modifies elems(x): x must be a slice or a map")
 			}
 			et := sliceElem(s.Typ)
 			for _, l := range flatten(et) {
